@@ -151,6 +151,24 @@ def lpc_e(e, names):
         return "%s(%s)" % (e[1], ", ".join(lpc_e(x, names) for x in e[2])) if e[2] is not None else e[1]
     if k == "lam2":              # anonymous functional (: $1 op $2 :) applied to two arguments
         return "evaluate((: $1 %s $2 :), %s, %s)" % (BINOPS[e[1]], lpc_e(e[2], names), lpc_e(e[3], names))
+    if k == "par":               # $N inside a functional
+        return "$%d" % e[1]
+    if k == "bnd":               # $(e): e is evaluated when the functional is created, in the context around the functional
+        return "$(%s)" % lpc_e(e[1], e[2] if len(e) > 2 else names)
+    if k == "fun":               # functional (: body :)
+        return "(: %s :)" % lpc_e(e[1], names)
+    if k == "anon":              # anonymous function with its own parameters / locals p0, p1, ...
+        pn = ["p%d" % q for q in range(e[1] + e[2])]
+        decl = ("mixed %s; " % ", ".join(pn[e[1]:])) if e[2] else ""
+        return "function(%s) { %s%s }" % (", ".join("mixed " + q for q in pn[:e[1]]), decl, " ".join(lpc_s(x, pn) for x in e[3]))
+    if k == "ev":                # evaluate(f, args...) in one of its spellings
+        f = lpc_e(e[1], names)
+        args = [lpc_e(x, names) for x in e[2]]
+        if e[3] == "star":
+            return "(*%s)(%s)" % (f, ", ".join(args))
+        if e[3] == "helper":
+            return "ap%d(%s)" % (len(args), ", ".join([f] + args))
+        return "evaluate(%s)" % ", ".join([f] + args)
     if k == "id":                # identifier inside a macro body (parameter, variable or efun name - decided by substitution)
         return e[1]
     if k == "paren":
@@ -217,6 +235,8 @@ def lpc_s(s, names):
         return "switch (%s) { %s }" % (lpc_e(s[1], names), arms)
     if k == "block":
         return "{ %s }" % " ".join(lpc_s(x, names) for x in s[1])
+    if k == "fdef":              # names[k] = <functional>;
+        return "%s = %s;" % (names[s[1]], lpc_e(s[2], names))
     raise ValueError(s)
 
 
@@ -353,6 +373,124 @@ for _n in ("f", "h"):
         _h(_n + "_sum", 1, ["mixed", "mixed"], _SUM),
     ]
 
+
+# ---- functionals: lowering for the S-expression ---------------------------------------------------------------
+# The reference semantics of a functional is BY VALUE: `evaluate((: body :), a1..an)` is the body with every `$(e)` replaced by
+# the value e had when the functional was CREATED (e is evaluated in the context around the functional: the enclosing
+# function's variables, or the `$N` of an enclosing functional) and `$N` by the N-th argument.  For the S-expression each
+# functional becomes a synthesised function `lamK` whose parameters are the bound values (creation order) followed by the
+# arguments; creating it evaluates the bound expressions (kept in hidden locals when the functional is stored in a variable),
+# applying it is an ordinary call.  Nothing of this is known to the driver side: the LPC text uses (: :), $N, $(..).
+HBASE = 10          # hidden locals of a test function start here (sx only)
+APN_LPC = ["mixed ap%d(%s) { return evaluate(%s); }" % (n, ", ".join(["mixed f"] + ["mixed q%d" % i for i in range(n)]),
+                                                       ", ".join(["f"] + ["q%d" % i for i in range(n)])) for n in range(0, 4)]
+
+
+class Lower:
+    def __init__(self, shared):
+        self.sh = shared            # {"n": counter, "fns": [sx text]}
+        self.stored = {}            # local index -> (lam name, hidden slots)
+        self.hidden = 0
+
+    def binds_of(self, body):
+        out = []
+
+        def walk(x):
+            if isinstance(x, tuple) and x:
+                if x[0] == "bnd":
+                    out.append(x[1])
+                    return
+                if x[0] in ("fun", "anon"):
+                    if x[0] == "fun":
+                        # the bound expressions of an inner functional are evaluated in OUR context; our own $(..) are not
+                        # generated inside them
+                        pass
+                    return
+                for y in x:
+                    walk(y)
+            elif isinstance(x, list):
+                for y in x:
+                    walk(y)
+        walk(body)
+        return out
+
+    def inner_binds_scan(self, body):
+        """binds of this functional in textual order, including none from nested functionals"""
+        return self.binds_of(body)
+
+    def make_fun(self, fun, nargs, env):
+        """returns (lam name, bound expressions lowered in the surrounding context env)"""
+        if fun[0] == "anon":
+            name = "lam%d" % self.sh["n"]
+            self.sh["n"] += 1
+            inner = Lower(self.sh)
+            body = ("block", [inner.stmt(x, None) for x in fun[3]])
+            self.sh["fns"].append("(fn %s %d (%s) %s)" % (name, fun[1], " ".join(["mixed"] * (fun[2] + inner.hidden)), sx_s(body)))
+            return name, []
+        body = fun[1]
+        binds = self.binds_of(body)
+        nb = len(binds)
+        name = "lam%d" % self.sh["n"]
+        self.sh["n"] += 1
+        sub = {"nb": nb, "next": 0}
+        lowered = self.expr(body, sub)
+        assert sub["next"] == nb, (sub, nb)
+        self.sh["fns"].append("(fn %s %d () (block (ret %s)))" % (name, nb + nargs, sx_e(lowered)))
+        return name, [self.expr(b, env) for b in binds]
+
+    def expr(self, e, env):
+        if isinstance(e, list):
+            return [self.expr(x, env) for x in e]
+        if not isinstance(e, tuple) or not e:
+            return e
+        k = e[0]
+        if k == "par":
+            assert env is not None
+            return ("l", env["nb"] + e[1] - 1)
+        if k == "bnd":
+            assert env is not None
+            q = env["next"]
+            env["next"] += 1
+            return ("l", q)
+        if k == "ev":
+            f, args = e[1], e[2]
+            if f[0] in ("fun", "anon"):
+                name, bl = self.make_fun(f, len(args), env)
+                return ("call", name, bl + [self.expr(a, env) for a in args], "local")
+            assert f[0] == "l" and f[1] in self.stored, e
+            name, slots = self.stored[f[1]]
+            return ("call", name, [("l", q) for q in slots] + [self.expr(a, env) for a in args], "local")
+        if k in ("fun", "anon"):
+            raise ValueError("functional outside evaluate / fdef: %r" % (e,))
+        return tuple(self.expr(x, env) if isinstance(x, (tuple, list)) else x for x in e)
+
+    def stmt(self, s, env):
+        if isinstance(s, tuple) and s and s[0] == "fdef":
+            name, bl = self.make_fun(s[2], s[3], env)
+            slots = list(range(HBASE + self.hidden, HBASE + self.hidden + len(bl)))
+            self.hidden += len(bl)
+            self.stored[s[1]] = (name, slots)
+            return ("block", [("expr", ("asg", ("l", q), b)) for q, b in zip(slots, bl)])
+        if isinstance(s, tuple):
+            if s and s[0] in ("expr", "ret"):
+                return (s[0], self.expr(s[1], env))
+            return tuple(self.stmt(x, env) if isinstance(x, tuple) and x and isinstance(x[0], str) and x[0] in STMT_KINDS
+                         else (self.expr(x, env) if isinstance(x, (tuple, list)) else x) for x in s)
+        return s
+
+
+STMT_KINDS = ("expr", "ret", "if", "while", "do", "for", "foreach", "foreach2", "switch", "block", "fdef")
+
+
+def has_funp(x):
+    if isinstance(x, tuple) and x:
+        if x[0] in ("ev", "fdef"):
+            return True
+        return any(has_funp(y) for y in x)
+    if isinstance(x, list):
+        return any(has_funp(y) for y in x)
+    return False
+
 NAMES = [n for n, _ in LOCALS]
 DECL = "mixed a, b, c, d; int i, j, n; float x, y; string s;"
 
@@ -362,10 +500,17 @@ def make_case(cid, fns, same=None, defines=(), meta=None):
     lines = ["L " + l for l in HELPER_LPC] + ["L " + d for d in defines]
     sx_fns = list(HELPER_SX)
     tys = " ".join(TYN[t] for _, t in LOCALS)
+    shared = {"n": 0, "fns": []}
     for k, body in enumerate(fns):
-        b = ("block", list(body))
         lines.append("L mixed t%d() { %s %s }" % (k, DECL, " ".join(lpc_s(x, NAMES) for x in body)))
-        sx_fns.append("(fn t%d 0 (%s) %s)" % (k, tys, sx_s(b)))
+        if has_funp(body):
+            lo = Lower(shared)
+            b = ("block", [lo.stmt(x, None) for x in body])
+            sx_fns.append("(fn t%d 0 (%s) %s)" % (k, tys + " mixed" * lo.hidden, sx_s(b)))
+        else:
+            b = ("block", list(body))
+            sx_fns.append("(fn t%d 0 (%s) %s)" % (k, tys, sx_s(b)))
+    sx_fns += shared["fns"]
     gt = " ".join(TYN[t] for _, t in GLOBALS)
     lines.append("sx (prog (%s) %s)" % (gt, " ".join(sx_fns)))
     lines.append("run %d" % len(fns))
@@ -465,14 +610,15 @@ def typed_local(e):
 class C03(Prop):
     id = "C03"
     title = "Compiled bytecode computes exactly what LPC semantics define"
-    lean_modules = ["NV.C03.Props", "NV.C03.Props2", "NV.C03.Props3", "NV.C03.Props4", "NV.C03.Props5", "NV.C03.Props6", "NV.C03.Props7", "NV.C03.Props8", "NV.C03.Props9", "NV.C03.Witness"]
+    lean_modules = ["NV.C03.Props", "NV.C03.Props2", "NV.C03.Props3", "NV.C03.Props4", "NV.C03.Props5", "NV.C03.Props6", "NV.C03.Props7", "NV.C03.Props8", "NV.C03.Props9", "NV.C03.Props10", "NV.C03.Witness"]
     theorems = []          # filled below
     witness_theorems = []
     consts = [("oldRangeBehavior", "NV_OLD_RANGE"), ("switchCaseSize", "SWITCH_CASE_SIZE"),
               ("mapHashTableSize", "MAP_HASH_TABLE_SIZE"), ("mapFillPercent", "FILL_PERCENT"),
               ("mapMaxTableSize", "MAX_TABLE_SIZE"), ("mapHashOf4096", "MAP_POINTER_HASH(4096)"),
-              ("macroMarks", "MARKS"), ("macroNargs", "NARGS")]
-    const_headers = ["lib/efuns/options.h", "src/interpret.h", "lib/lpc/mapping.h", "lib/lpc/lex.h"]
+              ("macroMarks", "MARKS"), ("macroNargs", "NARGS"),
+              ("typeAny", "TYPE_ANY"), ("typeNumber", "TYPE_NUMBER"), ("typeString", "TYPE_STRING"), ("typeReal", "TYPE_REAL")]
+    const_headers = ["lib/efuns/options.h", "src/interpret.h", "lib/lpc/mapping.h", "lib/lpc/lex.h", "lib/lpc/compiler.h"]
     const_prelude = "#ifdef OLD_RANGE_BEHAVIOR\n#define NV_OLD_RANGE 1\n#else\n#define NV_OLD_RANGE 0\n#endif\n"
     quick_n = 1200
     thorough_n = 6000
@@ -485,7 +631,12 @@ class C03(Prop):
                   "constant folding and the grammar's rewrites are sound; literal encodings round-trip for all int64; "
                   "switch table lookup equals the first matching arm; FULL statements (no excluded region) for stores through index "
                   "lvalues incl. a zero byte into a buffer (lvset_agrees) and for all `<` ranges at all int64 bounds (range_agrees, "
-                  "extract_agrees: the regenerated saturating helper range_from_end () never overflows and selects the reference range).  "
+                  "extract_agrees: the regenerated saturating helper range_from_end () never overflows and selects the reference range); "
+                  "heap model of add_array () with its five reference-count tests regenerated from array.c: whatever branch is taken the "
+                  "result holds p ++ r with one reference, an operand is reused only when the call held its only references, every array "
+                  "still referenced keeps its elements and an exact count (Heap.addArray_refines), compared with the real add_array on "
+                  "unit traces; the conditions of the grammar's typed rewrites are regenerated and fire only for TYPE_NUMBER operands "
+                  "(rw_guards_int).  "
                   "Whole programs: generated typed programs in sibling "
                   "spellings run in the real driver and must equal the LpcOps-based evaluator exactly; the reference "
                   "evaluator judges every result")
@@ -493,25 +644,47 @@ class C03(Prop):
                   "abstract in the theorems (FloatOps) and IEEE doubles in the driver; in-place fast paths keyed on reference counts "
                   "(add_array, string join, absorb / compose_mapping) are compared on generated self / aliased operand programs only "
                   "(no heap model); shift counts outside 0..63 are outside the model")
-    rule = ("cases = corpus + known-finding inputs + boundary list + seeded random cases from 19 families (binary/unary "
+    rule = ("cases = corpus + known-finding inputs + boundary list + seeded random cases from 21 families (binary/unary "
             "operators, op=, ++/--, index, range, index/range/char lvalues, integer / nested / string switches, loops, local / "
             "inherited / function-pointer calls, macros vs hand expansion, literals, zero-comparison rewrites, mapping algebra "
             "around every growMap threshold, self-operand / aliased-operand / freshness forms of the container and string operators "
             "(x op= x, x = x op x, a second reference held before, the alias as operand; local, global, array element, mapping value), "
+            "functionals ((: :) with $N, $(..) bound at creation, nested, stored and re-applied, (*f)(), through a helper, anonymous "
+            "functions) next to their by-value expansion, unit traces of add_array with chosen reference counts, "
             "unit traces of the mapping table and of handle_define) over the boundary value set "
             "(int64 extremes, mixed int/float, empty and multibyte strings, containers across hash-table thresholds); each "
-            "program has 2..12 sibling functions; 14 negative traces check the oracle on every run; a case is "
+            "program has 2..12 sibling functions; 19 negative traces check the oracle on every run; a case is "
             "non-trivial when at least one function returns a value (not an error); distinct = distinct canonical trace")
     not_covered = ["identity of arrays and mappings: == on containers, stores seen through a shared reference (b = a; a[0] = 1) - the "
                    "reference evaluates by value, the generator only produces programs where LPC promises value semantics (self / aliased "
-                   "operands and freshness of results are generated and judged; there is no heap-level theorem)",
+                   "operands and freshness of results are generated and judged; heap-level theorem for add_array only - string join, "
+                   "absorb_mapping / compose_mapping in-place paths are compared, not proved)",
+                   "functionals: missing / surplus arguments beyond the generated shapes, varargs, function pointers stored in containers "
+                   "or passed between objects, bind(); code generation for functionals (icode.c) is compared through programs only",
                    "class members as operands of the self-operand forms; `&` / `|` on arrays",
                    "shift counts outside 0..63 (C undefined behaviour; the model uses the x86 masking)",
                    "sign of a floating zero produced by folded `0 - x`",
                    "`-=` on char lvalues (documented as supported, raises 'Bad left type to -=')",
                    "open findings (language definition debatable): num-opeq-real, addeq-num-str, optimistic-types"]
 
+    # families that exercise the code behind each regenerated tie: when a tie breaks, the search stage draws 2/3 of its programs
+    # from them, so that a harmful change behind the broken tie yields a failing input and a harmless one a report that names the site
+    SITE_FAMS = {"guard:grammar-rewrites": ["fam_rewrite", "fam_binop", "fam_loop"], "guard:range_from_end": ["fam_range", "fam_lvalue", "fam_index"],
+                 "guard:F_INDEX": ["fam_index", "fam_lvalue", "fam_loop"],
+                 "guard:handle_define": ["fam_macrosubst", "fam_mdef", "fam_macro"],
+                 "guard:add_array": ["fam_selfop", "fam_arrtrace", "fam_assignop", "fam_loop"]}
+    broken_sites = ()
+
     def gen_extra(self, ctx, bdir):
+        from nvlib import extract as X
+        try:
+            self.broken_sites = ()
+            return self.gen_extra_inner(ctx, bdir)
+        except X.TieBroken as e:
+            self.broken_sites = (e.site,)
+            raise
+
+    def gen_extra_inner(self, ctx, bdir):
         """T4-style tie: the condition under which handle_define (lib/lpc/lex.c) replaces a body identifier by the marker of
         parameter n is transcribed into `NV.Gen.C03.macroParamMatch`; Props7.lean proves that it is string equality."""
         import re
@@ -538,7 +711,7 @@ class C03(Prop):
                 atoms.append("eqUpTo %s" % q.group(1))
                 continue
             raise X.TieBroken("guard:handle_define", "atom outside the guard grammar: `%s` in `%s`" % (at, cond))
-        guards = self.gen_index_guards(X) + self.gen_range_from_end(X)
+        guards = self.gen_index_guards(X) + self.gen_range_from_end(X) + self.gen_add_array_guards(X) + self.gen_rewrite_guards(X)
         return guards + ("\n/-- C (lib/lpc/lex.c handle_define): a body identifier of length `idlen` is replaced by parameter n iff\n"
                 "    `%s`  (l = strlen (args[n]); `eqUpTo k` = strncmp (args[n], ids, k) == 0) -/\n"
                 "def macroParamMatch (l idlen : Nat) (eqUpTo : Nat → Bool) : Bool := %s\n" % (cond.replace("-/", "- /"), " && ".join(atoms)))
@@ -640,12 +813,149 @@ class C03(Prop):
                 if not re.fullmatch(r"(to|from) = range_from_end \((len|v->size), \1\)", st):
                     raise X.TieBroken("guard:range_from_end", "%s: `<` bound computed by `%s` instead of range_from_end ()" % (fn, st))
                 sites.append((fn, g.group(1), st))
-        if len(sites) != 9:
-            raise X.TieBroken("guard:range_from_end", "expected 9 `<` sites in f_range / f_extract_range, found %d" % len(sites))
+        if not sites:
+            raise X.TieBroken("guard:range_from_end", "no `<` site found in f_range / f_extract_range")
         return ("\n/-- two's complement int64 wrap-around of a C operation -/\ndef w64 (n : Int) : Int := (n + 2 ^ 63) %% 2 ^ 64 - 2 ^ 63\n"
                 "\n/-- C (lib/lpc/operator.c range_from_end): `if (%s) return %s; return %s;` - every C int64 operation is `w64`;\n"
                 "    used at all %d `<` sites of f_range / f_extract_range -/\n"
                 "def rangeFromEnd (len i : Int) : Int := %s\n" % (cond, m.group(2).strip(), m.group(3).strip(), len(sites), lean))
+
+    def gen_add_array_guards(self, X):
+        """T4: the five reference-count tests of add_array () (lib/lpc/array.c) that decide between handing an operand back,
+        extending it in place, moving its elements out and copying - transcribed into `NV.Gen.C03.addArray*`; the heap model
+        `NV.C03.Heap.addArray` uses them and `Heap.addArray_refines` (Props10.lean) proves value semantics + no visible change
+        to any array that is still referenced.  The tests are located by what their block DOES, not by comments or lines."""
+        import re
+        src = open(os.path.join(E.REPO, "lib/lpc/array.c")).read()
+        m = re.search(r"\nadd_array \(array_t \* ?p, array_t \* ?r\)\s*\{(.*?)\n\}\n", src, re.S)
+        if not m:
+            raise X.TieBroken("guard:add_array", "add_array (array_t *p, array_t *r) not found in lib/lpc/array.c")
+        body = m.group(1)
+
+        def cond_to_lean(c):
+            c = " ".join(c.split())
+            toks = re.findall(r"\s*(p->ref|r->ref|p|r|==|!=|<=|>=|<|>|&&|\|\||\(|\)|\d+)", c)
+            if "".join(toks) != c.replace(" ", ""):
+                raise X.TieBroken("guard:add_array", "test outside the guard grammar: `%s`" % c)
+            pos = [0]
+
+            def atom():
+                k = toks[pos[0]]
+                if k == "(":
+                    pos[0] += 1
+                    v = disj()
+                    if pos[0] >= len(toks) or toks[pos[0]] != ")":
+                        raise X.TieBroken("guard:add_array", "unbalanced test `%s`" % c)
+                    pos[0] += 1
+                    return "(%s)" % v
+                if pos[0] + 2 >= len(toks) + 0 and False:
+                    pass
+                a, op, b = toks[pos[0]], toks[pos[0] + 1], toks[pos[0] + 2]
+                pos[0] += 3
+                if {a, b} == {"p", "r"} and op in ("==", "!="):
+                    return "same" if op == "==" else "!same"
+                if a in ("p->ref", "r->ref") and b.isdigit():
+                    lop = {"==": "=", "!=": "≠", "<": "<", "<=": "≤", ">": ">", ">=": "≥"}[op]
+                    return "decide (%s %s %s)" % ("pref" if a == "p->ref" else "rref", lop, b)
+                raise X.TieBroken("guard:add_array", "atom outside the guard grammar: `%s %s %s` in `%s`" % (a, op, b, c))
+
+            def conj():
+                v = atom()
+                while pos[0] < len(toks) and toks[pos[0]] == "&&":
+                    pos[0] += 1
+                    v = "%s && %s" % (v, atom())
+                return v
+
+            def disj():
+                v = conj()
+                while pos[0] < len(toks) and toks[pos[0]] == "||":
+                    pos[0] += 1
+                    v = "(%s || %s)" % (v, conj())
+                return v
+            try:
+                v = disj()
+            except IndexError:
+                raise X.TieBroken("guard:add_array", "truncated test `%s`" % c)
+            if pos[0] != len(toks):
+                raise X.TieBroken("guard:add_array", "trailing tokens in `%s`" % c)
+            return v, c
+        out = []
+        # the two size-0 branches: `x->ref--; return y->ref > 1 ? (y->ref--, copy_array (y)) : y;`
+        for name, a, b in (("CopyWhenLeftEmpty", "p", "r"), ("CopyWhenRightEmpty", "r", "p")):
+            g = re.search(r"if \(%s->size == 0\)\s*\{\s*%s->ref--;\s*return ([^?;]*?) \? \(%s->ref--, copy_array \(%s\)\) : %s;\s*\}" % (a, a, b, b, b), body)
+            if not g:
+                raise X.TieBroken("guard:add_array", "size-0 branch for %s not of the form `%s->ref--; return C ? (%s->ref--, copy_array (%s)) : %s;`" % (a, a, b, b, b))
+            out.append((name, "the other operand is copied (not handed back) when %s is empty" % a) + cond_to_lean(g.group(1)))
+        # the three tests are identified by what their block does
+        ifs = [(q.start(), q.group(1)) for q in re.finditer(r"if \(([^{};]*?)\)\s*\{", body)]
+
+        def guard_of(marker, what):
+            k = body.find(marker)
+            if k < 0:
+                raise X.TieBroken("guard:add_array", "statement `%s` (%s) not found in add_array" % (marker, what))
+            before = [c for (st, c) in ifs if st < k]
+            if not before:
+                raise X.TieBroken("guard:add_array", "no test in front of `%s`" % marker)
+            return before[-1]
+        out.append(("Self", "x += x is done in place (the block doubles d->size)") + cond_to_lean(guard_of("d->size <<= 1;", "in-place self append")))
+        out.append(("ReuseLeft", "the left operand is extended in place (RESIZE_ARRAY (p, ..) + d->size = res)") + cond_to_lean(guard_of("d->size = (unsigned short)res;", "left operand extended in place")))
+        out.append(("MoveRight", "the elements are moved out of the right operand, which is freed") + cond_to_lean(guard_of("FREE ((char *) r);", "right operand consumed")))
+        txt = ""
+        for name, what, lean, c in out:
+            txt += ("\n/-- C (lib/lpc/array.c add_array): `%s` - %s (same = `p == r`, pref / rref = the reference counts at that point) -/\n"
+                    "def addArray%s (same : Bool) (pref rref : Nat) : Bool := %s\n" % (c, what, name, lean))
+        return txt
+
+    def gen_rewrite_guards(self, X):
+        """T4: the conditions under which lib/lpc/grammar.y applies its typed peephole rewrites (`0 + X -> X`, `X + 0 -> X`,
+        `0 - X -> -X`, `x == 0 -> !x` both ways, `if (x != 0) -> if (x)` both ways), transcribed into `NV.Gen.C03.rw*`:
+        (zero = the constant operand is the literal 0, ty = the static type code of the OTHER operand).  `Frontend.rwBin` /
+        `rwIfCond` use them; `rw_guards_int` (Props10.lean) proves that each fires only for an operand typed TYPE_NUMBER - the
+        hypothesis of the value-level soundness theorems `rewrite_*_sound`.  The rules are located by what they produce."""
+        import re
+        src = open(os.path.join(E.REPO, "lib/lpc/grammar.y")).read()
+
+        def region(a, b):
+            i = src.find(a)
+            j = src.find(b, i + 1) if i >= 0 else -1
+            if i < 0 or j < 0:
+                raise X.TieBroken("guard:grammar-rewrites", "rule `%s` .. `%s` not found in lib/lpc/grammar.y" % (a, b))
+            return src[i:j]
+        specs = [
+            ("rwAddZeroL", region("expr0 '+' expr0", "expr0 '-' expr0"), r"if \(([^{}]*?)\)\s*\{\s*\$\$ = \$3;\s*break;\s*\}", "$1", "$3", "0 + X -> X"),
+            ("rwAddZeroR", region("expr0 '+' expr0", "expr0 '-' expr0"), r"if \(([^{}]*?)\)\s*\{\s*\$\$ = \$1;\s*break;\s*\}", "$3", "$1", "X + 0 -> X"),
+            ("rwSubZeroL", region("expr0 '-' expr0", "expr0 '*' expr0"), r"if \(([^{}]*?)\)\s*\{\s*CREATE_UNARY_OP\(\$\$, F_NEGATE, \$3->type, \$3\);", "$1", "$3", "0 - X -> -X"),
+            ("rwEqZeroL", region("expr0 L_EQ expr0", "expr0 L_NE expr0"), r"if \(([^{}]*?)\)\s*\{\s*CREATE_UNARY_OP\(\$\$, F_NOT, TYPE_NUMBER, \$3\);", "$1", "$3", "0 == x -> !x"),
+            ("rwEqZeroR", region("expr0 L_EQ expr0", "expr0 L_NE expr0"), r"if \(([^{}]*?)\)\s*\{\s*CREATE_UNARY_OP\(\$\$, F_NOT, TYPE_NUMBER, \$1\);", "$3", "$1", "x == 0 -> !x"),
+            ("rwIfNeZeroR", region("L_IF '(' comma_expr ')' statement optional_else_part", "CREATE_IF($$, $3, $5, $6);"), r"if \(([^{};]*?)\)\s*\$3 = \$3->l\.expr;", "$3->r.expr", "$3->l.expr", "if (x != 0) -> if (x)"),
+            ("rwIfNeZeroL", region("L_IF '(' comma_expr ')' statement optional_else_part", "CREATE_IF($$, $3, $5, $6);"), r"if \(([^{};]*?)\)\s*\$3 = \$3->r\.expr;", "$3->l.expr", "$3->r.expr", "if (0 != x) -> if (x)"),
+        ]
+        out = ""
+        for name, reg, pat, zop, top, what in specs:
+            g = re.search(pat, reg, re.S)
+            if not g:
+                raise X.TieBroken("guard:grammar-rewrites", "rewrite `%s`: the statement it produces was not found behind an `if (..)`" % what)
+            cond = " ".join(g.group(1).split())
+            atoms = []
+            for at in [a.strip() for a in cond.split("&&")]:
+                z = re.fullmatch(r"(\$\d(?:->[lr]\.expr)?)->v\.number == 0", at) or re.fullmatch(r"IS_NODE\((\$\d(?:->[lr]\.expr)?), NODE_NUMBER, 0\)", at)
+                if z:
+                    if z.group(1) != zop:
+                        raise X.TieBroken("guard:grammar-rewrites", "rewrite `%s`: the zero test is on %s, expected %s (`%s`)" % (what, z.group(1), zop, cond))
+                    atoms.append("zero")
+                    continue
+                t = re.fullmatch(r"(\$\d(?:->[lr]\.expr)?)->type (==|!=) TYPE_(NUMBER|REAL|STRING|ANY)", at)
+                if t:
+                    if t.group(1) != top:
+                        raise X.TieBroken("guard:grammar-rewrites", "rewrite `%s`: the type test is on %s, expected %s (`%s`)" % (what, t.group(1), top, cond))
+                    atoms.append("decide (ty %s type%s)" % ("=" if t.group(2) == "==" else "≠", t.group(3).capitalize()))
+                    continue
+                raise X.TieBroken("guard:grammar-rewrites", "rewrite `%s`: atom outside the guard grammar: `%s` in `%s`" % (what, at, cond))
+            if "zero" not in atoms:
+                raise X.TieBroken("guard:grammar-rewrites", "rewrite `%s`: no test for the literal 0 in `%s`" % (what, cond))
+            out += ("\n/-- C (lib/lpc/grammar.y, rewrite `%s`): `%s` -/\ndef %s (zero : Bool) (ty : Nat) : Bool := %s\n"
+                    % (what, cond.replace("-/", "- /"), name, " && ".join(atoms)))
+        return out
 
     @staticmethod
     def _balanced(t):
@@ -696,6 +1006,11 @@ class C03(Prop):
             ("maptrace-crash", ["maptrace ai:16:1"], ["sanitizer ERROR: AddressSanitizer: SEGV", "crash exit 1"], "bad impl-crash"),
             ("macro-body-prefix", ["mdef PICK(ab, a) (a)"], ["D PICK nargs=2 exps=202028404129"], "bad macro-body"),
             ("macro-body-missing", ["mdef PICK(ab, a) (a)"], [], "bad macro-body missing dump"),
+            ("arrtrace-value", ["arrtrace 1 2 0 2 0"], ["A 1 2 0 2 0 res=V ref=1 items=[1,2]"], "bad arrtrace-value"),
+            ("arrtrace-alias", ["arrtrace 1 2 1 2 0"], ["A 1 2 1 2 0 res=P ref=1 items=[1,2,1,2] p=1:[1,2,1,2]"], "bad arrtrace-alias"),
+            ("arrtrace-operand", ["arrtrace 0 2 1 1 0"], ["A 0 2 1 1 0 res=V ref=1 items=[1,2,101] p=1:[1,2,101]"], "bad arrtrace-operand"),
+            ("arrtrace-ref", ["arrtrace 0 0 0 2 2"], ["A 0 0 0 2 2 res=V ref=3 items=[101,102] r=2:[101,102]"], "bad arrtrace-ref"),
+            ("arrtrace-missing", ["arrtrace 0 0 0 2 2"], [], "bad arrtrace-missing"),
         ]
         cases = [E.Case("n%d" % k, lines + ["--"] + impl) for k, (_, lines, impl, _) in enumerate(neg)]
         out = E.nvdrive(self.id, "judge", E.cases_text(cases))
@@ -709,7 +1024,7 @@ class C03(Prop):
         return problems
 
     def nontrivial_key(self, case, out):
-        vals = [l for l in out if l.startswith("r ") and not l.endswith("!err") and not l.endswith("!nofn")]
+        vals = [l for l in out if (l.startswith("r ") or l.startswith("A ")) and not l.endswith("!err") and not l.endswith("!nofn")]
         if not vals:
             return None
         import hashlib
@@ -1186,6 +1501,13 @@ class C03(Prop):
         else:
             a = pick_scalar(rng) if rng.chance(4, 5) else rng.choice([small_arr(rng), Map([(I(1), I(2))]), Buf([65, 66])])
             b = pick_scalar(rng) if rng.chance(4, 5) else rng.choice([small_arr(rng), Map([(I(1), I(3)), (I(4), I(5))]), Buf([67])])
+        if op in ("div", "mod", "mul"):
+            # zero on either side, in either numeric type: the divisor test must look at the divisor, whatever the dividend is
+            zs = [I(0), Fl(0.0)] if op != "mod" else [I(0)]
+            if rng.chance(1, 3):
+                a = rng.choice(zs)
+            if rng.chance(1, 3):
+                b = rng.choice(zs)
         fns = [[("expr", ("asg", L(A), a)), ("expr", ("asg", L(B), b)), ("expr", ("aop", op, L(A), L(B))), ("ret", L(A))],
                [("expr", ("asg", L(A), a)), ("expr", ("asg", L(B), b)), ("expr", ("asg", L(A), ("bin", op, L(A), L(B)))), ("ret", L(A))],
                [("expr", ("asg", G(0), a)), ("expr", ("asg", G(1), b)), ("expr", ("aop", op, G(0), G(1))), ("ret", G(0))],
@@ -1196,6 +1518,23 @@ class C03(Prop):
         return make_case(cid, fns, meta={"origin": "generated", "family": "assignop"})
 
     def fam_literal(self, rng, cid):
+        if rng.chance(1, 3):
+            # mapping literals with REPEATED keys (the later value wins), keys of mixed types, next to the element-wise build
+            pool = [I(0), I(1), I(16), I(2 ** 32), I(-1), S(b"a"), S(b"b"), S(b""), Fl(0.0), Fl(1.0), Fl(2.5)]
+            n = rng.range(2, 9)
+            ks = [rng.choice(pool) for _ in range(rng.range(1, 4))]
+            keys = [rng.choice(ks) if rng.chance(1, 2) else rng.choice(pool) for _ in range(n)]
+            vals = [rng.choice([I(100 + q), S(b"v%d" % q), Arr([I(q)])]) for q in range(n)]
+            lit = Map(list(zip(keys, vals)))
+            build = [("expr", ("asg", L(A), Map([])))] + [("expr", ("asg", ("idx", L(A), k), v)) for k, v in zip(keys, vals)]
+            vkeys = [("expr", ("asg", L(B), Arr(keys)))]
+            litv = Map([(("idx", L(B), I(q)), v) for q, v in enumerate(vals)])      # keys known only at run time
+            rd = lambda m: Arr([("efun", "sizeof", [m])] + [("idx", m, k) for k in ks])
+            fns = [[("expr", ("asg", L(A), lit)), ("ret", Arr([L(A), rd(L(A))]))],
+                   build + [("ret", Arr([L(A), rd(L(A))]))],
+                   vkeys + [("expr", ("asg", L(A), litv)), ("ret", Arr([L(A), rd(L(A))]))],
+                   [("expr", ("asg", G(0), lit)), ("ret", Arr([G(0), rd(G(0))]))]]
+            return make_case(cid, fns, meta={"origin": "generated", "family": "literal", "kind": "mapdup"})
         vals = [rng.choice(INTS + [-128, 127, 128, -129, 65535, 65536, -65536, 2 ** 31 - 2, 2 ** 63 - 2]) for _ in range(rng.range(1, 12))]
         fns = [[("ret", Arr([I(v) for v in vals]))],
                [("expr", ("asg", L(A), Arr([]))), ] + [("expr", ("aop", "add", L(A), Arr([("bin", "add", ("bin", "sub", I(v), L(LI)), L(LI))]))) for v in vals] +
@@ -1774,13 +2113,132 @@ class C03(Prop):
             fns, same = variants(("idx", L(C), key), [("expr", ("asg", L(C), Map([(I(1), I(2))])))], lambda _: ("idx", L(C), key))
         return make_case(cid, fns, same=same, meta={"origin": "generated", "family": "selfop", "kind": kind, "op": op, "where": where})
 
+    def fam_funp(self, rng, cid):
+        """functionals (: .. :) with $N, $(..) bound at creation, nested functionals (the inner one binds the outer's $N), stored
+        functionals evaluated after the bound variable changed, (*f)(..), evaluate through a helper function, anonymous
+        functions - each next to its hand expansion (substitution by value)."""
+        mode = rng.weighted([("num", 6), ("str", 3), ("arr", 2)])
+        if mode == "num":
+            lit = lambda: I(rng.choice([0, 1, 2, 3, 5, 7, 10, 100, 1000, -1, -4, 2 ** 32, I64MAX])) if rng.chance(4, 5) else Fl(rng.choice([0.5, 1.5, -2.25, 3.0]))
+            ops = ["add", "sub", "mul", "add"]
+        elif mode == "str":
+            lit = lambda: S(rng.choice([b"a", b"bc", b"", b"[", b"]", b"x\xc3\xa9", b"k"])) if rng.chance(4, 5) else I(rng.range(0, 9))
+            ops = ["add"]
+        else:
+            lit = lambda: Arr([I(rng.range(0, 9)) for _ in range(rng.range(0, 2))])
+            ops = ["add", "add", "sub"]
+        setup = [("expr", ("asg", L(A), lit())), ("expr", ("asg", L(B), lit())), ("expr", ("asg", L(C), lit())),
+                 ("expr", ("asg", G(0), lit()))]
+        top_ctx = lambda: rng.choice([L(A), L(B), L(C), lit(), ("bin", rng.choice(ops), L(A), L(B))])
+
+        def body(depth, npar, ctx, size):
+            """expression of a functional with npar parameters; ctx () yields an expression of the surrounding context"""
+            def leaf():
+                k = rng.weighted([("par", 5), ("bnd", 4 if depth < 2 else 2), ("lit", 2), ("glob", 1)])
+                if k == "par" and npar:
+                    return ("par", rng.range(1, npar))
+                if k == "bnd":
+                    return ("bnd", ctx())
+                if k == "glob":
+                    return G(0)
+                return lit()
+
+            def node(sz):
+                if sz <= 1:
+                    return leaf()
+                k = rng.weighted([("bin", 6), ("nest", 4 if depth < 2 else 0), ("call", 1), ("cond", 1 if mode == "num" else 0)])
+                if k == "nest":
+                    m = rng.range(1, 2)
+                    inner_ctx = lambda: (("par", rng.range(1, npar)) if npar and rng.chance(2, 3) else lit())
+                    inner = body(depth + 1, m, inner_ctx, rng.range(2, 4))
+                    return ("ev", ("fun", inner), [leaf() for _ in range(m)], "evaluate")
+                if k == "call":
+                    return ("call", "f_add", [node(sz // 2), node(sz - sz // 2)], "local")
+                if k == "cond":
+                    return ("cond", ("bin", rng.choice(["lt", "ge"]), leaf(), leaf()), node(sz // 2), node(sz - sz // 2))
+                return ("bin", rng.choice(ops), node(sz // 2), node(sz - sz // 2))
+            # shape that matters: a parameter / bound value AFTER a nested functional
+            if depth == 0 and rng.chance(1, 2):
+                return ("bin", rng.choice(ops), ("bin", rng.choice(ops), leaf(), node(max(size - 2, 2))), leaf())
+            return node(size)
+
+        def rebind(x, f):
+            if isinstance(x, tuple) and x:
+                if x[0] == "bnd":
+                    return ("bnd", f(x[1]))
+                if x[0] in ("fun", "anon"):
+                    return x
+                return tuple(rebind(y, f) if isinstance(y, (tuple, list)) else y for y in x)
+            if isinstance(x, list):
+                return [rebind(y, f) for y in x]
+            return x
+
+        def expand(x, args):
+            if isinstance(x, tuple) and x:
+                if x[0] == "par":
+                    return args[x[1] - 1]
+                if x[0] == "bnd":
+                    return x[1]
+                if x[0] == "ev" and x[1][0] == "fun":
+                    ib = rebind(x[1][1], lambda e: expand(e, args))
+                    return expand(ib, [expand(a, args) for a in x[2]])
+                return tuple(expand(y, args) if isinstance(y, (tuple, list)) else y for y in x)
+            if isinstance(x, list):
+                return [expand(y, args) for y in x]
+            return x
+        npar = rng.range(1, 3)
+        bd = body(0, npar, top_ctx, rng.range(3, 8))
+        pure = lambda: rng.choice([L(A), L(B), L(C), lit()])
+        args = [pure() for _ in range(npar)]
+        args2 = [pure() for _ in range(npar)]
+        fun = ("fun", bd)
+        change = [("expr", ("asg", L(A), lit())), ("expr", ("asg", L(B), lit())), ("expr", ("asg", L(C), lit()))]
+        hand = expand(bd, args)
+        fns = [setup + [("ret", ("ev", fun, args, "evaluate"))],
+               setup + [("fdef", D, fun, npar), ("ret", ("ev", L(D), args, "evaluate"))],
+               setup + [("fdef", D, fun, npar), ("ret", ("ev", L(D), args, "star"))],
+               setup + [("ret", ("ev", fun, args, "helper"))],
+               setup + [("ret", hand)]]
+        same = [[0, 1, 2, 3, 4]]
+        # bound at creation: the variables change afterwards, the arguments are literals
+        largs = [lit() for _ in range(npar)]
+        fns.append(setup + [("fdef", D, fun, npar)] + change + [("ret", ("ev", L(D), largs, "evaluate"))])
+        fns.append(setup + [("ret", expand(bd, largs))])
+        same.append([5, 6])
+        # one stored functional applied twice
+        fns.append(setup + [("fdef", D, fun, npar), ("ret", Arr([("ev", L(D), args, "evaluate"), ("ev", L(D), args2, "star")]))])
+        fns.append(setup + [("ret", Arr([hand, expand(bd, args2)]))])
+        same.append([7, 8])
+        # anonymous function with a local, called with the same arguments
+        op1, op2 = rng.choice(ops), rng.choice(ops)
+        k2 = lit()
+        anon = ("anon", npar, 1, [("expr", ("asg", L(npar), ("bin", op1, L(0), L(npar - 1)))), ("ret", ("bin", op2, L(npar), k2))])
+        fns.append(setup + [("ret", ("ev", anon, args, rng.choice(["evaluate", "helper"])))])
+        fns.append(setup + [("ret", ("bin", op2, ("bin", op1, args[0], args[npar - 1]), k2))])
+        same.append([9, 10])
+        return make_case(cid, fns, same=same, defines=APN_LPC, meta={"origin": "generated", "family": "funp", "mode": mode})
+
+    def fam_arrtrace(self, rng, cid):
+        """unit traces of add_array () with chosen reference counts (who else holds the operands), compared with the heap model
+        NV.C03.Heap.addArray and judged by value semantics"""
+        lines = []
+        for _ in range(rng.range(6, 14)):
+            same = 1 if rng.chance(1, 3) else 0
+            ps = rng.choice([0, 0, 1, 2, 3, 5, 8, 17])
+            rs = ps if same else rng.choice([0, 0, 1, 2, 4, 9])
+            pe = rng.choice([0, 0, 1, 2, 3])
+            re_ = 0 if same else rng.choice([0, 0, 1, 2])
+            lines.append("arrtrace %d %d %d %d %d" % (same, ps, pe, rs, re_))
+        return E.Case(cid, lines, {"origin": "generated", "family": "arrtrace"})
+
     FAMS = [("fam_binop", 9), ("fam_unop", 2), ("fam_incdec", 3), ("fam_index", 5), ("fam_range", 5), ("fam_lvalue", 6),
-            ("fam_switch", 6), ("fam_loop", 6), ("fam_assignop", 5), ("fam_literal", 2), ("fam_rewrite", 4), ("fam_macro", 3), ("fam_calls", 5), ("fam_mapalg", 7), ("fam_maptrace", 5), ("fam_macrosubst", 7), ("fam_mdef", 4), ("fam_strswitch", 6), ("fam_selfop", 8)]
+            ("fam_switch", 6), ("fam_loop", 6), ("fam_assignop", 5), ("fam_literal", 3), ("fam_rewrite", 4), ("fam_macro", 3), ("fam_calls", 5), ("fam_mapalg", 7), ("fam_maptrace", 5), ("fam_macrosubst", 7), ("fam_mdef", 4), ("fam_strswitch", 6), ("fam_selfop", 8), ("fam_funp", 8), ("fam_arrtrace", 3)]
 
     def generate(self, rng, n, tier):
         out = []
+        focus = [f for site in self.broken_sites for f in self.SITE_FAMS.get(site, [])] if tier == "search" else []
         for k in range(n):
-            fam = rng.weighted(self.FAMS)
+            fam = rng.choice(focus) if focus and rng.chance(2, 3) else rng.weighted(self.FAMS)
             out.append(getattr(self, fam)(rng, "g%d" % k))
         return out
 
@@ -1889,7 +2347,7 @@ PROP.theorems = ["NV.C03." + t for t in (
     "HT.mapping_lookup_after_insert", "HT.empty_refines",
     "Macro.macroParamMatch_iff", "Macro.matchParam_eq_paramOf", "Macro.specGo_eq", "Macro.scan_eq", "Macro.goRaw_blank",
     "Macro.macro_definition_agrees", "Macro.macro_expansion_agrees",
-    "index_guard_buf", "index_guard_str", "index_guard_arr",
+    "index_guard_buf", "index_guard_str", "index_guard_arr", "Heap.addArray_refines", "Heap.addArray_value", "rw_guards_int", "tyCode_int",
     "mem_sortEntries", "pairwise_sortEntries", "sortedT_of_pairwise", "mem_strEntries", "string_switch_agrees",
     "wrap_id", "wrap_range", "tdiv_range", "tmod_range", "idiv_eq", "imod_eq")]
 PROP.witness_theorems = ["NV.C03." + t for t in (
